@@ -492,6 +492,48 @@ func (s *state) step(op string) string {
 		close(ch)
 		p.handler(ctx, b.header, 1, ch)
 		ign = fmt.Sprintf(" dh=%d", b.header.Nonce)
+	case "deliver2":
+		// two downloads of the SAME block finish at the same moment: both handlers get the whole block and
+		// run concurrently, so two successful completions are reported to the manager back to back while it
+		// is moving on to the next request (the late one must not be taken for the next request's)
+		pa := s.usablePeer(a)
+		var pb *peer
+		if e, ok := a.Int("e"); ok && pa != nil {
+			pb = s.usablePeer(hx.Args{"d": fmt.Sprint(e)})
+		}
+		if pa == nil || pb == nil || !pa.hash.Equal(&pb.hash) {
+			ign = " ign=1"
+			break
+		}
+		var b *block
+		for _, x := range s.blocks {
+			if x.hash.Equal(&pa.hash) {
+				b = x
+			}
+		}
+		if cur := s.current(); cur >= 0 && s.reqHash[cur] == s.hashKey(pa.hash) {
+			s.Lock()
+			s.expectSig = cur
+			h := pa.hash
+			s.frozen = &h
+			s.Unlock()
+		}
+		var wg sync.WaitGroup
+		gate := make(chan struct{})
+		for _, p := range []*peer{pa, pb} {
+			wg.Add(1)
+			go func(p *peer) {
+				defer wg.Done()
+				ch := make(chan *wire.MsgTx, 2)
+				ch <- b.tx
+				close(ch)
+				<-gate
+				p.handler(ctx, b.header, 1, ch)
+			}(p)
+		}
+		close(gate)
+		wg.Wait()
+		ign = fmt.Sprintf(" dh=%d", b.header.Nonce)
 	case "fail":
 		p := s.usablePeer(a)
 		if p == nil {
